@@ -7,6 +7,7 @@ currently_exiting_context / analyze_with_blocks agree with the model at every su
 from . import wm_cases as WC
 
 PROP = "C01"
+CASE_LIMIT = 5400      # the `live` descriptor runs whole runtime legs (many minutes in the thorough tier)
 KINDS = WC.kinds("KSusp")
 SHARD = 14
 RULE = ("corpus = standard-library code objects containing a with statement (20 sampled by seed in quick, all ~440 in "
